@@ -75,18 +75,26 @@ impl<T: Qcow2IoOps> Qcow2Dev<T> {
     // if we are running out of reftable, allocate more clusters and replace
     // current refcount table with new one
     //
-    // All dirty refblock tables need to be flushed before flushing out the new
-    // reftable.
+    // The new table and the refblock which holds its refcounts are put at
+    // the start of the host range which the old table can't cover, so
+    // nothing can be allocated there yet.
+    //
+    // All dirty refblock slices and the old table are flushed first, then
+    // the whole new table is written and made durable before the header is
+    // switched over to it.
+    //
+    // Returns the old table's location, which the caller has to free after
+    // releasing the reftable lock.
     //
     // Very slow code path.
     async fn grow_reftable(
         &self,
         reftable: &LockWriteGuard<RefTable>,
         grown_rt: &mut RefTable,
-    ) -> Qcow2Result<()> {
+    ) -> Qcow2Result<(u64, usize)> {
         let info = &self.info;
         let new_rt_clusters = grown_rt.cluster_count(info);
-        if new_rt_clusters >= info.rb_entries() - 1 {
+        if new_rt_clusters >= info.rb_slice_entries() as usize - 1 {
             // 1 entry stays free so we can allocate this refblock by putting its refcount into
             // itself
             // TODO: Implement larger allocations
@@ -94,10 +102,13 @@ impl<T: Qcow2IoOps> Qcow2Dev<T> {
                 "The reftable needs to grow to {} bytes, but we can allocate only {} -- try \
                      increasing the cluster size",
                 new_rt_clusters * info.cluster_size(),
-                (info.rb_entries() - 1) * info.cluster_size(),
+                (info.rb_slice_entries() as usize - 1) * info.cluster_size(),
             )
             .into());
         }
+
+        // the copy made by our caller has to be complete
+        self.flush_refcount_locked(reftable).await?;
 
         // Allocate new reftable, put its refcounts in a completely new refblock
         let old_rt_offset = reftable.get_offset().unwrap();
@@ -119,30 +130,26 @@ impl<T: Qcow2IoOps> Qcow2Dev<T> {
             new_refblock.increment(i).unwrap();
         }
 
-        let cls = HostCluster(refblock_offset);
-
-        let rb_before = self.call_fallocate(
-            cls.rb_slice_host_start(info),
-            (refblock_offset - cls.rb_slice_host_start(info))
-                .try_into()
-                .unwrap(),
-            Qcow2OpsFlags::FALLOCATE_ZERO_RANGE,
-        );
-        let rb = self.flush_table(&new_refblock, 0, new_refblock.byte_size());
-        let rb_after = self.call_fallocate(
-            refblock_offset + rb_size as u64,
-            cls.rb_slice_host_end(info) as usize - refblock_offset as usize - rb_size,
-            Qcow2OpsFlags::FALLOCATE_ZERO_RANGE,
-        );
-        let (res0, res1, res2) = futures::join!(rb_before, rb, rb_after);
-        if res0.is_err() || res1.is_err() || res2.is_err() {
-            return Err("Failed to flush refcount block or discard other parts".into());
+        // the first slice of the new refblock, the rest of it is zero
+        self.flush_table(&new_refblock, 0, new_refblock.byte_size())
+            .await?;
+        if info.cluster_size() > rb_size {
+            self.call_fallocate(
+                refblock_offset + rb_size as u64,
+                info.cluster_size() - rb_size,
+                Qcow2OpsFlags::FALLOCATE_ZERO_RANGE,
+            )
+            .await?;
         }
 
-        //todo: write all dirty refcount_block
-
+        // every block of the new table has to be written
         grown_rt.set_refblock_offset(reftable.entries(), refblock_offset);
+        let entries_per_blk = (1usize << info.block_size_shift) >> 3;
+        for idx in (0..grown_rt.entries()).step_by(entries_per_blk) {
+            grown_rt.set_dirty(idx);
+        }
         self.flush_top_table(grown_rt).await?;
+        self.call_fsync(0, usize::MAX, 0).await?;
 
         // write header
         {
@@ -159,9 +166,7 @@ impl<T: Qcow2IoOps> Qcow2Dev<T> {
             .await?;
         }
 
-        self.free_clusters(old_rt_offset, old_rt_clusters).await?;
-
-        Ok(())
+        Ok((old_rt_offset, old_rt_clusters))
     }
 
     async fn get_reftable_entry(&self, rt_idx: usize) -> RefTableEntry {
@@ -350,6 +355,22 @@ impl<T: Qcow2IoOps> Qcow2Dev<T> {
 
     /// make sure reftable entry points to valid refcount block
     async fn ensure_refblock_offset(&self, cls: &HostCluster) -> Qcow2Result<RefTableEntry> {
+        let (rt_e, old_rt) = self.__ensure_refblock_offset(cls).await?;
+
+        // the refcount table has been moved: the header has to point to
+        // the new one for sure before the old one can be reused
+        if let Some((old_rt_offset, old_rt_clusters)) = old_rt {
+            self.call_fsync(0, usize::MAX, 0).await?;
+            self.free_clusters(old_rt_offset, old_rt_clusters).await?;
+        }
+
+        Ok(rt_e)
+    }
+
+    async fn __ensure_refblock_offset(
+        &self,
+        cls: &HostCluster,
+    ) -> Qcow2Result<(RefTableEntry, Option<(u64, usize)>)> {
         let info = &self.info;
 
         let rt_index = cls.rt_index(info);
@@ -357,15 +378,11 @@ impl<T: Qcow2IoOps> Qcow2Dev<T> {
             let reftable = self.reftable.read().await;
             let rt_entry = reftable.get(rt_index);
             if !rt_entry.is_zero() {
-                return Ok(rt_entry);
+                return Ok((rt_entry, None));
             }
         }
 
-        let rt_clusters = {
-            let h = self.header.read().await;
-            h.reftable_clusters()
-        };
-
+        let mut old_rt = None;
         let mut reftable = self.reftable.write().await;
         log::info!(
             "ensure rt entry: rt_idx {} rt_entries {} host_cluster {:x}",
@@ -374,17 +391,15 @@ impl<T: Qcow2IoOps> Qcow2Dev<T> {
             cls.0
         );
         if !reftable.in_bounds(rt_index) {
-            let mut grown_rt = reftable.clone_and_grow(rt_index, rt_clusters, info.cluster_size());
-            if !grown_rt.is_update() {
-                self.grow_reftable(&reftable, &mut grown_rt).await?;
-            }
+            let mut grown_rt = reftable.clone_and_grow(rt_index, info.cluster_size());
+            old_rt = Some(self.grow_reftable(&reftable, &mut grown_rt).await?);
             *reftable = grown_rt;
         }
 
         // Retry before allocating, maybe something has changed in the meantime
         let rt_entry = reftable.get(rt_index);
         if !rt_entry.is_zero() {
-            return Ok(rt_entry);
+            return Ok((rt_entry, old_rt));
         }
 
         // always run background flushing
@@ -421,7 +436,7 @@ impl<T: Qcow2IoOps> Qcow2Dev<T> {
 
         log::debug!("ensure_refblock: done");
 
-        Ok(rt_e)
+        Ok((rt_e, old_rt))
     }
 
     // `fixed_start` means we can't change the specified allocation position
